@@ -10,6 +10,7 @@ import (
 	"fmt"
 	"reflect"
 	"strings"
+	"sync"
 	"time"
 
 	jsonata "github.com/blues/jsonata-go"
@@ -309,9 +310,76 @@ func runC19(c *ctx) {
 		c.diffEval("$fromMillis(ms, (), tz)", map[string]interface{}{"ms": 1.5e12, "tz": tz}, "offset-malformed")
 		c.diffEval("$fromMillis(ms, \"[Z] [z] [Z0] [Z0000] [ZN] [ZZ] [Z01:01t]\", tz)", map[string]interface{}{"ms": 1.5e12, "tz": tz}, "offset-styles")
 	}
+	// 3b. every offset of the span x every timezone presentation (military letters exist for -12..+12 whole hours only)
+	for off := -56; off <= 56; off++ {
+		in := map[string]interface{}{"ms": 1.5e12, "tz": c19Tz(off * 15)}
+		c.diffEval("$fromMillis(ms, \"[Z]|[z]|[Z0]|[Z00]|[Z0000]|[ZN]|[Z01:01t]|[Z0101t]|[z0]\", tz)", in, "offset-all-styles")
+		c.diffEval("$fromMillis(ms, \"[ZZ]\", tz)", in, "offset-all-styles")
+		c.diffEval("$fromMillis(ms, \"[zZ]\", tz)", in, "offset-all-styles")
+		c.diffEval("$fromMillis(ms, \"[ZZ,4]x\", tz)", in, "offset-all-styles")
+	}
 	// 4. $now / $millis: one instant per evaluation, inside the call's wall-clock bracket
 	e2, err := jsonata.Compile("[$millis(), $toMillis($now()), $millis(), $toMillis($now()), $sum([1..20000]) ? $millis() : 0]")
 	if err == nil {
+		// histories around the clock reading: evaluations that yield no value, an evaluation nested inside another
+		// (through an extension), and evaluations overlapping in time must each keep their own single instant
+		und, _ := jsonata.Compile("nothing.here")
+		innerE, _ := jsonata.Compile("$millis()")
+		outer, _ := jsonata.Compile("[$millis(), $inner(), $millis(), $toMillis($now())]")
+		outer.RegisterExts(map[string]jsonata.Extension{"inner": {Func: func() (float64, error) {
+			time.Sleep(3 * time.Millisecond)
+			v, err := innerE.Eval(nil)
+			if err != nil {
+				return 0, err
+			}
+			f := reflect.ValueOf(v)
+			if f.Kind() == reflect.Float64 {
+				return f.Float(), nil
+			}
+			return float64(f.Int()), nil
+		}}})
+		for i := 0; i < c.scale(30, 300); i++ {
+			und.Eval(nil)
+			res, err := outer.Eval(nil)
+			c.note(fmt.Sprint("nested", i), "now-millis-nested", true)
+			arr, ok := res.([]interface{})
+			if err != nil || !ok || len(arr) != 4 || fmt.Sprint(arr[0]) != fmt.Sprint(arr[2]) || fmt.Sprint(arr[0]) != fmt.Sprint(arr[3]) {
+				c.disagree(Disagreement{Kind: "law", Prog: "und.Eval; [$millis(), $inner(), $millis(), $toMillis($now())] with $inner evaluating another expression", Go: fmt.Sprint(res, err), Model: "readings 1, 3 and 4 are one instant"})
+				break
+			}
+		}
+		var wg sync.WaitGroup
+		var mu sync.Mutex
+		bad := ""
+		for g := 0; g < 8; g++ {
+			wg.Add(1)
+			go func(g int) {
+				defer wg.Done()
+				for i := 0; i < c.scale(40, 200); i++ {
+					if i%5 == g%5 {
+						und.Eval(nil)
+					}
+					res, err := e2.Eval(nil)
+					arr, ok := res.([]interface{})
+					if err != nil || !ok || len(arr) != 5 {
+						continue
+					}
+					for _, v := range arr {
+						if fmt.Sprint(v) != fmt.Sprint(arr[0]) {
+							mu.Lock()
+							bad = fmt.Sprint(arr)
+							mu.Unlock()
+							return
+						}
+					}
+				}
+			}(g)
+		}
+		wg.Wait()
+		c.note("concurrent-now", "now-millis-concurrent", true)
+		if bad != "" {
+			c.disagree(Disagreement{Kind: "law", Prog: "8 goroutines x $now/$millis readings within one Eval", Go: bad, Model: "one instant per evaluation"})
+		}
 		for i := 0; i < c.scale(20, 200); i++ {
 			t0 := time.Now().UnixNano() / 1e6
 			res, err := e2.Eval(nil)
